@@ -8,6 +8,7 @@ cp -f evidence/$prop.json /tmp/try_seed_evidence.json 2>/dev/null
 git -C /repo apply "$patch" || { echo "patch does not apply"; exit 3; }
 ./check "$prop" --tier "$tier" > /tmp/try_seed.out 2>&1; rc=$?
 git -C /repo checkout -- . 
+git -C /repo clean -fdq -- src   # files a patch added
 cp -f /tmp/try_seed_evidence.json evidence/$prop.json 2>/dev/null
 # regenerate the tables from the restored tree so that the next build does not start from the seeded ones
 python3 tools/extract.py > /dev/null
